@@ -1,6 +1,7 @@
 package sim
 
 import (
+	"runtime"
 	"sync/atomic"
 	"crypto/sha256"
 	"encoding/hex"
@@ -106,7 +107,8 @@ func (c *DriveCtx) Exec(spec *RunSpec) *Result {
 		func() {
 			defer func() {
 				if r := recover(); r != nil {
-					res.Harness = fmt.Sprintf("oracle panic: %v", r)
+					buf := make([]byte, 4096)
+					res.Harness = fmt.Sprintf("oracle panic: %v\n%s", r, buf[:runtime.Stack(buf, false)])
 				}
 			}()
 			c.P.Oracle(c, res)
